@@ -50,7 +50,7 @@ theorem C15_accepts_flat (tr app : VDict) (s : Settings) (m : PMsg) (mt : Bytes)
     validateFieldContent_ok m _ _ c.sectioned (c.values.valuesOK _)
   have h4 : validateFields tr app s m.fields = .ok () := by
     apply validateFields_ok
-    intro f hf
+    intro f hf _
     obtain ⟨ft, p, hd, he, hp, hr⟩ := c.typed f hf
     have hv : f.value ≠ [] := by
       have := c.values f hf
@@ -129,7 +129,8 @@ theorem C15_defect_field (tr app : VDict) (s : Settings) (m : PMsg) (mt : Bytes)
     (reqH : ∀ x ∈ h.reqTags, x ∈ m.hdr) (reqB : ∀ x ∈ b.reqTags, x ∈ m.body) (reqT : ∀ x ∈ t.reqTags, x ∈ m.trl)
     (sectioned : Sectioned m.fields) (values : ValuesOK s.checkHaveValues m.fields)
     (hri : s.rejectInvalid = true) (hfs : m.fields = pre ++ f :: post)
-    (hpre : ∀ g ∈ pre, validateField (if isHeaderTag g.tag || isTrailerTag g.tag then tr else app) s g = .ok ())
+    (hpre : ∀ g ∈ pre, g.tag ≠ 35 → validateField (if isHeaderTag g.tag || isTrailerTag g.tag then tr else app) s g = .ok ())
+    (h35 : f.tag ≠ 35)
     (hf : validateField (if isHeaderTag f.tag || isTrailerTag f.tag then tr else app) s f = .error e) :
     validatePipeline tr app s mt m = .error e := by
   have h1 : validateMsgType app mt = .ok () := by simp [validateMsgType, bdef]
@@ -139,15 +140,16 @@ theorem C15_defect_field (tr app : VDict) (s : Settings) (m : PMsg) (mt : Bytes)
   have h3 : validateFieldContent m s.checkHaveValues s.checkOrder = .ok () :=
     validateFieldContent_ok m _ _ sectioned values
   have h4 : validateFields tr app s m.fields = .error e := by
-    rw [hfs]; exact validateFields_first hpre hf
+    rw [hfs]; exact validateFields_first hpre h35 hf
   simp only [validatePipeline, bind, Except.bind, h1, h2, h3, h4, hri]
   simp
 
 /-- a value outside the declared enumeration is named: reason 5, that tag -/
 theorem C15_defect_bad_enum (d : VDict) (s : Settings) (f : TV) (ft : FType) (hv : f.value ≠ [])
-    (hd : d.ftype f.tag = some ft) (hne : ft.enums ≠ []) (hnot : f.value ∉ ft.enums) :
+    (hd : d.ftype f.tag = some ft) (hne : ft.enums ≠ []) (hnot : f.value ∉ ft.enums)
+    (htok : ft.multi = false ∨ ∃ tok ∈ splitOn32 f.value [], tok ∉ ft.enums) :
     validateField d s f = .error (.reject ⟨5, some f.tag⟩) ∧ expected .badEnum f.tag ⟨5, some f.tag⟩ = true :=
-  ⟨validateField_bad_enum d s f ft hv hd hne hnot, by simp [expected]⟩
+  ⟨validateField_bad_enum d s f ft hv hd hne hnot htok, by simp [expected]⟩
 
 /-- a value not in the declared type's grammar is named: reason 6, that tag -/
 theorem C15_defect_bad_format (d : VDict) (s : Settings) (f : TV) (ft : FType) (p : Proto) (hv : f.value ≠ [])
@@ -179,7 +181,7 @@ theorem C15_defect_duplicate_tag (tr app : VDict) (s : Settings) (m : PMsg) (mt 
     (reqH : ∀ x ∈ h.reqTags, x ∈ m.hdr) (reqB : ∀ x ∈ b.reqTags, x ∈ m.body) (reqT : ∀ x ∈ t.reqTags, x ∈ m.trl)
     (sectioned : Sectioned m.fields) (values : AllValues m.fields)
     (hri : s.rejectInvalid = true) (hfs : m.fields = pre ++ f :: post)
-    (typed : ∀ g ∈ m.fields, validateField (if isHeaderTag g.tag || isTrailerTag g.tag then tr else app) s g = .ok ())
+    (typed : ∀ g ∈ m.fields, g.tag ≠ 35 → validateField (if isHeaderTag g.tag || isTrailerTag g.tag then tr else app) s g = .ok ())
     (nodup : (pre.map (·.tag)).Nodup) (plain : ∀ g ∈ pre, PlainDefined tr b g)
     (hdup : f.tag ∈ pre.map (·.tag)) :
     validatePipeline tr app s mt m = .error (.reject ⟨13, some f.tag⟩) := by
@@ -249,6 +251,37 @@ example : C15_verdictIs (validate C15_exDict none defaultSettings
     { C15_exMsg with fields := [⟨8, [70]⟩, ⟨35, [48]⟩, ⟨112, []⟩, ⟨10, [48]⟩] }) (some ⟨4, some 112⟩) = true := by decide
 example : C15_verdictIs (validate C15_exDict none defaultSettings
     { C15_exMsg with fields := [⟨8, [70]⟩, ⟨35, [48]⟩, ⟨112, [65]⟩, ⟨112, [65]⟩, ⟨10, [48]⟩] }) (some ⟨13, some 112⟩) = true := by decide
+
+/-! ### the unchanged tree: decided witnesses for the three validator defects fixed by `fix:` commits -/
+
+def C15_isOk {α} : V α → Bool | .ok _ => true | _ => false
+def C15_isRej {α} (v : V α) (r : Reject) : Bool := match v with | .error (.reject r') => r' == r | _ => false
+
+def C15_wDict : VDict :=
+  { msg? := fun _ => none, header := none, trailer := none
+    ftype := fun t => if t = 18 then some { proto := some .str, enums := [[73], [84]], multi := true }
+                      else if t = 35 then some { proto := some .str, enums := [[48]] } else none }
+
+/-- D13: `18=I T` with `I` and `T` declared — rejected (5, 18) by the original check, accepted by the fixed one -/
+theorem C15_multiple_value_orig_witness :
+    C15_isRej (validateFieldOrig C15_wDict defaultSettings ⟨18, [73, 32, 84]⟩) ⟨5, some 18⟩ = true ∧
+    C15_isOk (validateField C15_wDict defaultSettings ⟨18, [73, 32, 84]⟩) = true ∧
+    C15_isRej (validateField C15_wDict defaultSettings ⟨18, [73, 32, 88]⟩) ⟨5, some 18⟩ = true := by decide
+
+/-- MsgType `BR` not in the transport enumeration: rejected (5, 35) by the original per-field stage, skipped by the fixed one -/
+theorem C15_msgtype_enum_orig_witness :
+    C15_isRej (validateFieldsOrig C15_wDict C15_wDict defaultSettings [⟨35, [66, 82]⟩]) ⟨5, some 35⟩ = true ∧
+    C15_isOk (validateFields C15_wDict C15_wDict defaultSettings [⟨35, [66, 82]⟩]) = true := by decide
+
+/-- group 73 with members 11 (delimiter) and 6, both required -/
+def C15_wGroup : FDef := .mk 73 false [.mk 11 true [] [], .mk 6 true [] []] [11, 6]
+
+/-- `73=2 | 11=a | 11=b 6=c | 10=x`: member 6 missing at the end of the FIRST entry — accepted by the original walk,
+    named (1, 6) by the fixed one -/
+theorem C15_group_tail_orig_witness :
+    C15_isOk (visitFieldOrig 20 C15_wGroup [⟨73, [50]⟩, ⟨11, [97]⟩, ⟨11, [98]⟩, ⟨6, [99]⟩, ⟨10, [120]⟩]) = true ∧
+    C15_isRej (visitField 20 C15_wGroup [⟨73, [50]⟩, ⟨11, [97]⟩, ⟨11, [98]⟩, ⟨6, [99]⟩, ⟨10, [120]⟩]) ⟨1, some 6⟩ = true := by
+  decide
 
 /-- NOT proved (monitor + correspondence only): the CheckFieldsHaveValues route names the FIRST empty field even when
     RejectInvalidMessage is off -/
